@@ -1290,6 +1290,8 @@ def _show(t):
     if not isinstance(t, tuple) or not t:
         return repr(t)
     k = t[0]
+    if not isinstance(k, str):
+        return "(" + ", ".join(_show(x) for x in t) + ")"
     if k == "param":
         return t[1]
     if k == "lparam":
